@@ -3,10 +3,11 @@ Line-protocol driver: dispatch on the first word of each line.
 -/
 import Univers.Driver.Util
 import Univers.Driver.Vers
+import Univers.Driver.Gem
 
 namespace Univers.Driver
 
-def handlers : List (List String → Option String) := [versCmd]
+def handlers : List (List String → Option String) := [versCmd, gemCmd]
 
 def answer (line : String) : String :=
   let ws := (line.splitOn " ").filter (· ≠ "")
